@@ -473,6 +473,10 @@ def render_doctest(dt, indent, out, lineno0, env=None, defaults=None):
             if st_runs:
                 window = []
         else:
+            if st.get('want') in ('acc', 'last'):
+                # a want with nothing to show (what it would quote does not run here): the chunk
+                # still ends at this statement, as the generator assumed when it laid out the rest
+                out.append('')
             if st['form'] not in NOCODE_FORMS and st_runs:
                 window = window + form_out(st)
         meta_steps.append({'first': first_line, 'last': last_line, 'want_line': want_line,
